@@ -256,6 +256,22 @@ CLAIMED['C12'] = {
             'classes as abstracted in Model/Audit.v; LogLogit choice rule modelled for constant / column choices only.',
 }
 
+CLAIMED['C15'] = {
+    'technique': 'Rocq proof over a model regenerated from source (tie A) + correspondence and crash injection against the implementation (tie B)',
+    'text': ('Axiom-free theorems by induction over ALL histories of estimate / quick_estimate / likelihood evaluations (improving, worsening, equal, non-finite '
+             'gradient, wrong length) / bootstrap loops / processes stopped after any number of primitive steps (bytes) of any save and restarted: the iteration file, '
+             'when an evaluation counts, holds exactly one name = str(value) line per free parameter of the best counted point (latest among equals) and the marker is '
+             'its log likelihood; it reads back bit for bit (given float(str v) = v); the saved point is never below the first evaluation of the estimation; estimate '
+             'and quick_estimate start from it; after any crash the file is absent or complete (old or new content) and a new process restarts from it without error '
+             '(given atomic os.replace); bootstrap evaluations never touch file or marker; distinct model names use distinct files. Save condition, marker updates, '
+             'write discipline (temp file + os.replace), line format, parser, the prologues of estimate / quick_estimate and the bootstrap suspension/restoration are '
+             'regenerated from biogeme.py by a fail-closed AST extractor on every run. Refuted variants (in-place write, no marker update, split(=), quick_estimate '
+             'without prologue, bootstrap not suspended / data not restored) document what each repaired line carries. The session semantics is compared with real '
+             'BIOGEME objects after every evaluation, on crafted files, and under os._exit injected at every byte of every save; thorough adds real SIGKILLs (not a proof).'),
+    'note': KERNEL + 'Section hypotheses: os.replace atomic (POSIX rename), float(str(v)) == v, str(v) has no white space / = / line break (both checked on every '
+            'streamed value); a crash is a process death, not a power failure (no fsync claim); the specialised extractor in lib/props/C15.py + py2v.',
+}
+
 _NOT_YET = 'check not built yet in this session (framework under construction); no claim made'
 NOT_APPLICABLE = {p: _NOT_YET for p in
                   ['C01', 'C02', 'C03', 'C04', 'C05', 'C06', 'C07', 'C08', 'C09', 'C10', 'C11', 'C12', 'C13',
